@@ -2,6 +2,7 @@ use crate::{buffer::Buffer, utils};
 
 #[derive(Debug)]
 #[cfg_attr(feature = "verif-hooks", derive(Clone))]
+#[cfg_attr(feature = "verif-hooks", derive(Hash))]
 pub struct History<B: Buffer> {
     /// Buffer that stores element bytes.
     /// Elements are stored null separated, thus no null
@@ -172,6 +173,14 @@ impl<B: Buffer> History<B> {
     /// (whole buffer, used, cursor)
     pub fn __verif_state(&self) -> (&[u8], usize, Option<usize>) {
         (self.buffer.as_slice(), self.used, self.cursor)
+    }
+
+    /// Hash over every field of the struct (the buffer contributes what its own `Hash` impl chooses)
+    pub fn __verif_struct_hash(&self) -> u64
+    where
+        B: core::hash::Hash,
+    {
+        crate::editor::__verif_hash_of(self)
     }
 
     /// Overwrite bytes that are not part of any stored element
